@@ -349,6 +349,7 @@ func faultVariant(out *os.File, bseed int64, steps, at int, ft *memfile.Fault, p
 	var sink *os.File = out
 	w := NewWorld(sink, rng, u, 0)
 	w.prop = prop
+	w.noEvictIn = true
 	w.nEvents, w.cats = total.events, total.cats
 	defer func() {
 		w.flushOut()
